@@ -579,6 +579,8 @@ class GenConfig:
     p_pod_record: float = 0.3       # records made of fixed-size fields only (whole-record copy paths, struct padding)
     p_optional_alias: float = 0.3   # aliases whose target can be absent (T?, nullable unions)
     time_keys: bool = False         # date/datetime map keys (Python only: C++ has no std::hash for them, C08)
+    odd_namespaces: bool = False    # imported namespaces named like modules every generated Python package has (Types, Binary, ...):
+                                    # yardl accepts them, the Python output is then not importable (C08) - for checks that run the tool only
 
     @staticmethod
     def swarm(rng: Rng) -> "GenConfig":
@@ -1085,6 +1087,8 @@ def gen_package(seed: int, cfg: Optional[GenConfig] = None, targets=("cpp", "pyt
     imports = []
     ns = list(NAMESPACES[1:])
     rng.shuffle(ns)
+    if cfg.odd_namespaces and cfg.imports and rng.fork("oddns").chance(0.25):
+        ns[0] = rng.fork("oddns2").choice(["Types", "Binary", "Protocols", "Ndjson", "YardlTypes"])
     for i in range(cfg.imports):
         icfg = replace(cfg, imports=0, n_protocols=(0, 1), n_records=(1, 3))
         g = PackageGen(rng.fork("import", i), icfg, ns[i], "imp_" + ns[i].lower(), imports=list(imports) if rng.chance(0.4) else [])
